@@ -128,6 +128,37 @@ def tlc_printed(out, tag):
     return res
 
 
+def model_check_cached(module, cfg, deps, workers=8, timeout=3600, xmx="12g"):
+    """Exhaustive TLC run of a design model (independent of /repo); cached in work/mc_cache by the hash of the spec files.
+    -> dict(distinct_states, states_generated, depth, completed, violated, cached, cmd). Raises ToolError if the model is violated."""
+    h = hashlib.sha256()
+    for f in list(deps) + [module, cfg]:
+        h.update(open(os.path.join(SPEC, f), "rb").read())
+    cache_dir = os.path.join(WORK, "mc_cache")
+    os.makedirs(cache_dir, exist_ok=True)
+    key = os.path.join(cache_dir, f"{cfg.replace('.cfg', '')}_{h.hexdigest()[:20]}.json")
+    if os.path.exists(key):
+        r = json.load(open(key))
+        r["cached"] = True
+        return r
+    work = scratch()
+    try:
+        out = tlc(module, cfg, work, workers=workers, timeout=timeout, xmx=xmx, deque=False)
+    finally:
+        shutil.rmtree(work, ignore_errors=True)
+    distinct, gen = tlc_stats(out)
+    m = re.search(r"The depth of the complete state graph search is (\d+)", out)
+    ok = "Model checking completed. No error has been found." in out
+    violated = re.findall(r"Error: (?:Invariant|Action property|Temporal properties?) ?(\w*) (?:is|were) violated", out)
+    r = {"module": module, "cfg": cfg, "distinct_states": distinct, "states_generated": gen, "depth": int(m.group(1)) if m else None,
+         "completed": ok, "violated": violated, "cached": False, "cmd": f"tlc -workers {workers} -config {cfg} {module}"}
+    if not ok:
+        raise ToolError(f"the model {module}/{cfg} is violated or did not complete ({violated}): the specification needs attention "
+                        f"(not a verdict about the code)\n" + out[-2500:])
+    json.dump(r, open(key, "w"))
+    return r
+
+
 # ------------------------------------------------------------------------------------------
 # known findings
 # ------------------------------------------------------------------------------------------
